@@ -90,12 +90,12 @@ def run_gen(spec, res):
     xmlschema = env.activate_repo()
     from lxml import etree as lxml_etree
     schemas = {}
-    for fam in D.FAMILIES:
+    for fam in list(D.FAMILIES) + ['un']:
         for v, cls in (('1.0', xmlschema.XMLSchema10), ('1.1', xmlschema.XMLSchema11)):
             schemas[fam, v] = cls(D.family_xsd(fam, v))
     rng = env.rng_for(PROPERTY, spec['tier'], spec['seed'], spec['gshard'])
     for d in range(spec['docs']):
-        fam = rng.choice(('shop', 'shop', 'tree', 'ctx'))
+        fam = rng.choice(('shop', 'shop', 'tree', 'ctx', 'un'))
         doc = D.GENERATORS[fam](rng)
         version = rng.choice(('1.0', '1.1'))
         schema = schemas[fam, version]
